@@ -91,11 +91,17 @@ class Binding:
             fractions_init=np.array(vols[0], dtype=float),
             orientations_init=np.array(oris[0], dtype=float),
         )
+        from harness.common import represent
+
+        self.nmin = getattr(self, "nmin", 0) + 1
         for s in range(1, max(len(oris), len(vols))):  # extra snapshots appended to the histories
+            # (in one of several in-memory representations of the same values: histories are built by solvers,
+            #  loaders and users alike)
+            kind = ("c", "fortran", "strided", "readonly")[(self.nmin + s) % 4]
             if s < len(oris):
-                m.orientations.append(np.array(oris[s], dtype=float))
+                m.orientations.append(represent(oris[s], kind))
             if s < len(vols):
-                m.fractions.append(np.array(vols[s], dtype=float))
+                m.fractions.append(represent(vols[s], "strided" if kind == "fortran" else kind))
         return m
 
     def average(self, minerals, asm, phi, tensors=None):
